@@ -96,7 +96,10 @@ class Live:
             if step["route"] == "list" and len(names) == self.np:
                 self.m.parameters = [self.theta[j] for j in names]
             else:
-                self.m.parameters = {PARAMS[j - 1]: self.theta[j] for j in names}
+                # dict keyed by name or (every other time) by symbol
+                import sympy
+                key = (lambda j: sympy.Symbol(PARAMS[j - 1])) if c % 2 == 0 else (lambda j: PARAMS[j - 1])
+                self.m.parameters = {key(j): self.theta[j] for j in names}
         else:
             raise ValueError(act)
 
